@@ -283,10 +283,11 @@ class Explorer2(Explorer):
             seen_f = set()
             out = []
             for j, s in enumerate(seq, 1):
-                if s[:2] in seen_f:
+                key = (s[0], s[1], s[3])          # (file, function, calling function): the first line of every function, once per distinct caller
+                if key in seen_f:
                     self.pairs_skipped_by_b_cap += 1
                     continue
-                seen_f.add(s[:2])
+                seen_f.add(key)
                 out.append(j)
             return out
         tot = {}
@@ -310,7 +311,14 @@ class Explorer2(Explorer):
                 return None                      # A's own events after it has resumed
             self.bk += 1
             if self.recording is not None:
-                self.recording.append((code.co_filename[len(self.prefix):], code.co_name, where))
+                caller = ''
+                if self.b_cap == 'func':
+                    try:
+                        fb = sys._getframe(1).f_back
+                        caller = fb.f_code.co_name if fb is not None else ''
+                    except Exception:
+                        caller = ''
+                self.recording.append((code.co_filename[len(self.prefix):], code.co_name, where, caller))
             elif self.bk == self.b_target:
                 self.b_site = (code.co_filename[len(self.prefix):], code.co_name, where)
                 self.b_parked.set()              # baton to A ...
@@ -367,7 +375,7 @@ class Explorer2(Explorer):
                 self.b_parked.wait()
                 return None                      # A resumes from exactly this point, B is parked at its j-th line event
             os.close(w)
-            self.pending.append((pid, r, (k, j, seq[j - 1]), site, time.time()))
+            self.pending.append((pid, r, (k, j, seq[j - 1][:3]), site, time.time()))
             while len(self.pending) >= self.outstanding:
                 self._reap_one()
         return None
